@@ -56,10 +56,7 @@ func stressLines(r *RNG, n int) []string {
 		case 5:
 			out = append(out, ":srv CAP me NEW :away-notify extended-join", ":srv CAP me DEL :away-notify")
 		case 6:
-			out = append(out, ":srv CAP me ACK :multi-prefix account-tag message-tags")
-			if r.Bool() {
-				out = append(out, ":srv CAP me DEL :message-tags")
-			}
+			out = append(out, ":srv CAP me ACK :multi-prefix account-tag")
 		case 7:
 			out = append(out, fmt.Sprintf(":%s!u@h PRIVMSG %s :hello %d", nk, ch, i))
 		case 8:
@@ -227,9 +224,17 @@ func stressWorkerMain(args []string) {
 		if atomic.LoadInt32(&sendersOff) == 1 {
 			return
 		}
-		switch i % 7 {
-		case 6: // an event carrying message tags: sendLoop consults the enabled capabilities for it
+		if mode == "tags" {
+			// events carrying message tags (sendLoop consults the enabled capabilities for each of them) at a pace that keeps
+			// the send queue short: handleCAP answers under the state lock, and with a FULL queue and a tagged event at its head
+			// both sides wait for write()'s 30-second timeout (bounded, allow-listed in Spec/LockPolicy.lean, not a deadlock)
 			_ = c.Cmd.SendRaw("@+example/id=1 PRIVMSG #a :tagged")
+			time.Sleep(time.Millisecond)
+			return
+		}
+		switch i % 7 {
+		case 6:
+			c.Cmd.Whois("carl")
 		case 0:
 			c.Cmd.Message("#a", "hello there")
 		case 1:
@@ -305,6 +310,13 @@ func stressWorkerMain(args []string) {
 		time.Sleep(100 * time.Millisecond)
 		srv.Close()
 		c.Close()
+	case "tags":
+		// message-tags switched on and off by the server while tagged events are being written
+		var lines []string
+		for i := 0; i < nLines/2; i++ {
+			lines = append(lines, ":srv CAP me ACK :message-tags", fmt.Sprintf(":Bob!u@h PRIVMSG #a :between %d", i), ":srv CAP me DEL :message-tags")
+		}
+		runConn(lines, false)
 	case "reconnect":
 		for k := 0; k < 3; k++ {
 			runConn(stressLines(r, nLines/3), k == 1)
@@ -440,7 +452,8 @@ func runC12(c *Ctx) {
 	}
 	c.run("stress12", map[string]string{"seed": "1", "procs": "4", "lines": "0", "mode": "connected"})
 	c.run("stress12", map[string]string{"seed": "1", "procs": "4", "lines": "0", "mode": "stsack"})
-	n += 2
+	c.run("stress12", map[string]string{"seed": "1", "procs": "4", "lines": "120", "mode": "tags"})
+	n += 3
 	for _, mode := range []string{"stream", "closemid", "reconnect"} {
 		for _, procs := range []string{"1", "2", "16"} {
 			if c.Scale == 1 && (mode == "reconnect" && procs != "16" || mode == "closemid" && procs == "2") {
